@@ -9,9 +9,6 @@ CONSTANTS MaxConn = 3
  N = 2
 INVARIANT TypeOK
 INVARIANT WellScoped
-INVARIANT BoundStable
-INVARIANT MonotoneN
-INVARIANT RelFaithful
-INVARIANT AnchorsOK
+INVARIANT OracleOK
 POSTCONDITION Emit
 CHECK_DEADLOCK FALSE
